@@ -661,4 +661,14 @@ def _is_tail_origin(b, e):
     return bool(o) and all(x.startswith('param(') and x.endswith('[i]') for x in o)
 
 
-RULES = [('C04.f', rule_f), ('C04.g', rule_g), ('C04.e', rule_e), ('C04.a', rule_a), ('C04.b', rule_b), ('C04.c', rule_c), ('C04.d', rule_d)]
+def rule_h(prog, rep):
+    rep.rule('C04.h', 'T1', 'what the notification matcher walks is what registration filled: the subscription trie is only ever '
+             'extended node-wise and a subscriber leaves it by id; no trie node is removed (= the registry clause of C03.f) - a pruned '
+             'inner node would cut off longer patterns that share its segments, so notifications would no longer follow the relation '
+             'pget and pdelete use')
+    from .c03 import registry_mutations
+    registry_mutations(prog, rep, 'C04.h', 'subscribers::', 'HashMap<worterbuch_common::KeySegment, subscribers::Node', 'Vec<subscribers::Subscriber',
+                       3, 'registry mutation sites (1 entry + 2 retain)')
+
+
+RULES = [('C04.h', rule_h), ('C04.f', rule_f), ('C04.g', rule_g), ('C04.e', rule_e), ('C04.a', rule_a), ('C04.b', rule_b), ('C04.c', rule_c), ('C04.d', rule_d)]
